@@ -5,9 +5,32 @@ line on stdout.  Rejects what it cannot parse with `bad-op`; never defaults.  `#
 import SmppVerif.Model.Wire
 import SmppVerif.Model.Gsm
 import SmppVerif.Model.Packed
+import SmppVerif.Model.Time
 
 namespace SmppVerif.Driver
 open SmppVerif SmppVerif.Wire
+
+def showTimeObj : Time.TimeObj → String
+  | .none => "ok none"
+  | .abs d => s!"ok abs {d.year} {d.month} {d.day} {d.hour} {d.minute} {d.second} {d.micro} " ++
+      (match d.offset with | none => "-" | some o => toString o)
+  | .rel t => s!"ok rel {t.days} {t.seconds} {t.micros}"
+
+def parseTimeObj : List String → Option Time.TimeObj
+  | ["none"] => some .none
+  | ["abs", y, mo, d, h, mi, s, us, off] =>
+    match y.toNat?, mo.toNat?, d.toNat?, h.toNat?, mi.toNat?, s.toNat?, us.toNat? with
+    | some y, some mo, some d, some h, some mi, some s, some us =>
+      if off = "-" then some (.abs ⟨y, mo, d, h, mi, s, us, none⟩)
+      else match off.toInt? with
+        | some o => some (.abs ⟨y, mo, d, h, mi, s, us, some o⟩)
+        | none => none
+    | _, _, _, _, _, _, _ => none
+  | ["rel", d, s, us] =>
+    match d.toInt?, s.toNat?, us.toNat? with
+    | some d, some s, some us => some (.rel ⟨d, s, us⟩)
+    | _, _, _ => none
+  | _ => none
 
 def step (line : String) : String :=
   let ws := (line.trimAscii.toString.splitOn " ").filter (· ≠ "")
@@ -40,6 +63,14 @@ def step (line : String) : String :=
     match parseHex b with
     | some b => "ok " ++ showNats (Packed.unpack b)
     | _ => "bad-op"
+  | "time.to" :: rest =>
+    match parseTimeObj rest with
+    | some t => resNats (Time.toSmpp t)
+    | none => "bad-op"
+  | ["time.from", t] =>
+    match parseNats t with
+    | some t => (match Time.fromSmpp t with | .ok r => showTimeObj r | .error e => showExc e)
+    | none => "bad-op"
   | _ => "bad-op"
 
 partial def loop (h : IO.FS.Stream) (out : IO.FS.Stream) : IO Unit := do
